@@ -36,6 +36,8 @@ def cli_args(job, inp, db):
         a += ['-r', repr(job['rates'][0])]
     else:
         a += ['-r1', repr(job['rates'][0]), '-r2', repr(job['rates'][1]), '-r3', repr(job['rates'][2])]
+    if job.get('verbose', job.get('dseed', 1) % 4 == 0):
+        a += ['-v']          # verbose on a deterministic quarter of the scenarios: it must change nothing that is observed
     return a
 
 
